@@ -332,20 +332,23 @@ Fixpoint defaults_tree (fuel : nat) (l : loc) (k : string) (v : tree) (dh : heap
 Definition defaults_pairs (fuel : nat) (l : loc) := sub_pairs (defaults_tree fuel l).
 
 (* ---------------------------------------------------------------- values *)
-Fixpoint resolve (fuel : nat) (dh h : heap) (c : cell) : tree :=
+(* by value; an object met again on the path from the root is shown as "<cycle>" *)
+Fixpoint resolve_at (fuel : nat) (dh h : heap) (path : list id) (c : cell) : tree :=
   match c with
   | CInt z => TInt z
   | CPtr i =>
+    if existsb (id_eqb i) path then TRef RCopy "<cycle>" else
     match fuel with
     | O => TRef RCopy "<deep>"
     | S f =>
       match hget dh h i with
-      | Some (OList l) => TList (map (resolve f dh h) l)
-      | Some (ODict d) => TDict (map (fun kc => (fst kc, resolve f dh h (snd kc))) d)
+      | Some (OList l) => TList (map (resolve_at f dh h (i :: path)) l)
+      | Some (ODict d) => TDict (map (fun kc => (fst kc, resolve_at f dh h (i :: path) (snd kc))) d)
       | None => TRef RCopy "<dangling>"
       end
     end
   end.
+Definition resolve (fuel : nat) (dh h : heap) (c : cell) : tree := resolve_at fuel dh h [] c.
 
 Definition hidden (k : string) : bool :=
   match k with String "$"%char _ => true | _ => false end.
@@ -487,6 +490,7 @@ Fixpoint init_ctx (kvs : list (string * tree)) (p : priv) : priv :=
   match kvs with
   | [] => p
   | (k, t) :: r =>
+    if negb (running p) then p else
     let '(p1, c) := fmt FUEL [] t p in
     init_ctx r (if running p1 then set_ctx (aset k c (ctx p1)) p1 else p1)
   end.
@@ -534,25 +538,29 @@ Fixpoint history (dh : heap) (rs : list runspec) : heap * list result :=
 
 (* ---------------------------------------------------------------- loading: the yaml
    loader allocates the definition (post-order); [roots] are the cells handed to InjectIn *)
+Section DallocList.
+  Context (f : tree -> heap -> heap * cell).
+  Fixpoint dalloc_cells (l : list tree) (dh : heap) : heap * list cell :=
+    match l with
+    | [] => (dh, [])
+    | t :: r => let '(dh1, c) := f t dh in let '(dh2, cs) := dalloc_cells r dh1 in (dh2, c :: cs)
+    end.
+  Fixpoint dalloc_pairs (l : list (string * tree)) (dh : heap) : heap * list (string * cell) :=
+    match l with
+    | [] => (dh, [])
+    | (k, t) :: r => let '(dh1, c) := f t dh in let '(dh2, cs) := dalloc_pairs r dh1 in (dh2, (k, c) :: cs)
+    end.
+End DallocList.
+
 Fixpoint dalloc (t : tree) (dh : heap) {struct t} : heap * cell :=
   match t with
   | TInt z => (dh, CInt z)
   | TRef _ _ => (dh, CInt 0)          (* data values are reference-free; not generated *)
   | TList l =>
-    let '(dh1, cs) :=
-      (fix go (l : list tree) (dh : heap) : heap * list cell :=
-         match l with
-         | [] => (dh, [])
-         | t :: r => let '(dh1, c) := dalloc t dh in let '(dh2, cs) := go r dh1 in (dh2, c :: cs)
-         end) l dh in
+    let '(dh1, cs) := dalloc_cells dalloc l dh in
     (dh1 ++ [OList cs], CPtr (D (List.length dh1)))
   | TDict d =>
-    let '(dh1, cs) :=
-      (fix go (l : list (string * tree)) (dh : heap) : heap * list (string * cell) :=
-         match l with
-         | [] => (dh, [])
-         | (k, t) :: r => let '(dh1, c) := dalloc t dh in let '(dh2, cs) := go r dh1 in (dh2, (k, c) :: cs)
-         end) d dh in
+    let '(dh1, cs) := dalloc_pairs dalloc d dh in
     (dh1 ++ [ODict cs], CPtr (D (List.length dh1)))
   end.
 
@@ -736,3 +744,53 @@ Section Interleave.
   Definition proj (t : nat) (sch : list (nat * O)) : list O :=
     map snd (filter (fun x => Nat.eqb (fst x) t) sch).
 End Interleave.
+
+(* ---------------------------------------------------------------- correspondence for the
+   threaded tier: two runs on real threads, one REAL step (= a block of operations) at a time
+   in the order a schedule of thread ids dictates *)
+Fixpoint build_sched (steps : nat -> list (list op)) (s : list nat) : list (nat * op) :=
+  match s with
+  | [] => []
+  | t :: r =>
+    match steps t with
+    | [] => build_sched steps r
+    | ops :: rest =>
+      map (fun o => (t, o)) ops ++ build_sched (fun x => if Nat.eqb x t then rest else steps x) r
+    end
+  end.
+
+Definition thread := (list (string * tree) * list (list op))%type.
+
+Fixpoint threads_obs (dh : heap) (roots : list cell) (ths : list thread) (scheds : list (list nat))
+  : list (heap * (result * list tree) * (result * list tree)) :=
+  match scheds with
+  | [] => []
+  | s :: rest =>
+    let ps := fun t => init_ctx (fst (nth t ths ([], []))) empty_priv in
+    let '(dh2, ps2) := sched_run step dh ps (build_sched (fun t => snd (nth t ths ([], []))) s) in
+    let defs := map (resolve FUEL dh2 []) roots in
+    (dh2, (result_of dh2 (ps2 0%nat), defs), (result_of dh2 (ps2 1%nat), defs)) :: threads_obs dh2 roots ths rest
+  end.
+
+Definition c12_threads_show (defs : list tree) (mk : (nat -> cell) -> list thread) (scheds : list (list nat)) :=
+  let '(dh, roots) := load defs [] in
+  let ths := mk (fun n => nth n roots (CInt 0)) in
+  let specs := map (fun th : thread => mkrun (fst th) (List.concat (snd th))) ths in
+  let dh1 := fst (history dh specs) in
+  (model_obs dh roots specs, map (fun x => (snd (fst x), snd x)) (threads_obs dh1 roots ths scheds)).
+
+Definition c12_threads_check (defs : list tree) (mk : (nat -> cell) -> list thread) (scheds : list (list nat))
+  (solo : list obs) (thr : list (obs * obs)) : nat :=
+  let '(dh, roots) := load defs [] in
+  let ths := mk (fun n => nth n roots (CInt 0)) in
+  let specs := map (fun th : thread => mkrun (fst th) (List.concat (snd th))) ths in
+  let ms := model_obs dh roots specs in
+  let dh1 := fst (history dh specs) in
+  let ts := threads_obs dh1 roots ths scheds in
+  if existsb (fun m => is_unsup (o_status (fst m))) ms
+     || existsb (fun x => negb (closed (fst (fst x))) || is_unsup (o_status (fst (snd (fst x))))
+                          || is_unsup (o_status (fst (snd x)))) ts
+  then 2%nat
+  else if list_eqb (fun m o => obs_matches m o) ms solo
+          && list_eqb (fun x (o : obs * obs) => obs_matches (snd (fst x)) (fst o) && obs_matches (snd x) (snd o)) ts thr
+  then 0%nat else 1%nat.
